@@ -369,3 +369,28 @@ Proof.
       * destruct (move_iff_probability _ _ _ _ _ _ H1 Sv) as (_ & _ & _ & _ & N). contradiction.
     + destruct (accepted_undesirable_forced _ _ _ _ _ _ H1 eq_refl) as (? & _ & ? & _). eauto.
 Qed.
+
+(* "already holds its action set": if some entry has the candidate's action set and no entry dominates
+   the candidate, the verdict is the duplicate one (and the move is therefore certain) *)
+Lemma held_verdict a c :
+  (exists x, In x a /\ same_acts x c) ->
+  (forall x, In x a -> dominates (e_vec x) (e_vec c) = Ok false) ->
+  cannot_be_archived a c = Ok RejectedWithDuplicateEntryDetected.
+Proof.
+  induction a as [|y a IH]; intros (x & Hx & Hs) Hnd; [contradiction|].
+  cbn [cannot_be_archived]. rewrite (Hnd y (or_introl eq_refl)). cbn [res_bind].
+  destruct (acts_eqb (e_acts y) (e_acts c)) eqn:E; [reflexivity|].
+  apply IH.
+  - destruct Hx as [->|Hx]; [unfold same_acts in Hs; congruence|]. eauto.
+  - intros z Hz. apply Hnd. right. exact Hz.
+Qed.
+
+Lemma move_certain_when_held p s i :
+  (exists x, In x (arch s) /\ same_acts x (i_cand i)) ->
+  (forall x, In x (arch s) -> dominates (e_vec x) (e_vec (i_cand i)) = Ok false) ->
+  exists s1, accept_phase p s i = Ok (RejectedWithDuplicateEntryDetected, AcceptDesirable, s1)
+             /\ cur s1 = i_cand i /\ arch s1 = arch s /\ accprob s1 = 1%float.
+Proof.
+  intros Hh Hnd. unfold accept_phase, attempt. rewrite (held_verdict _ _ Hh Hnd).
+  cbn. eexists. split; [reflexivity|]. cbn. auto.
+Qed.
